@@ -285,15 +285,17 @@ def defs_in_node(f, n):
         if k == 'call' and n.get('obj') is not None and not n.get('cconst'):
             on = f.nodes[n['obj']]
             if on['k'] == 'ref' and 'id' in on:
-                if n.get('op') in ('=', '+=', '-=', '|=', '&=', '*=', '/='):
+                if n.get('op') == '=' and len(n.get('args', [])) == 1:
+                    out.append((on['id'], True, n['args'][0]))
+                elif n.get('op') in ('+=', '-=', '|=', '&=', '*=', '/='):
                     out.append((on['id'], True, n['i']))
                 else:
                     out.append((on['id'], False, n['i']))
     return out
 
 
-def reaching_defs(g):
-    """IN state per point: frozenset of (varid, def point id)"""
+def reaching_defs(g, skip_edge=None):
+    """IN state per point: frozenset of (varid, def point id); skip_edge(p,q,label) removes edges"""
     def transfer(p, st):
         if p.n is None:
             return st
@@ -310,7 +312,7 @@ def reaching_defs(g):
         for s in states[1:]:
             r = r | s
         return r
-    IN, OUT = g.forward(frozenset(), transfer, meet, entry_state=frozenset())
+    IN, OUT = g.forward(frozenset(), transfer, meet, entry_state=frozenset(), skip_edge=skip_edge)
     return IN
 
 
